@@ -139,8 +139,15 @@ def demErrors (shape : Nat × Nat) (m : Dem) : List (Rat × List Bool) :=
 def demBias (errs : List (Rat × List Bool)) (χ : List Bool) : Rat :=
   errs.foldl (fun acc (p, s) => if dotOdd χ s then acc * (1 - 2 * p) else acc) 1
 
-/-- characters to test: all singletons, all pairs when the space is small, and pseudo-random ones -/
+/-- every character of (ℤ/2)ⁿ -/
+def allChars : Nat → List (List Bool)
+  | 0 => [[]]
+  | n+1 => (allChars n).flatMap fun χ => [false :: χ, true :: χ]
+
+/-- characters to test: **all of them when there are at most 8 symptoms** (then, by `Fourier.same_distribution_of_same_bias`, agreement
+    means the two distributions are equal); otherwise all singletons, all pairs when the space is small, and pseudo-random ones -/
 def testChars (n : Nat) (seed : Nat) : List (List Bool) :=
+  if n ≤ 8 then allChars n else
   let single := (List.range n).map fun i => (List.range n).map (· == i)
   let pairs := if n ≤ 10 then (List.range n).flatMap fun i => (List.range i).map fun j => (List.range n).map fun k => k == i || k == j else []
   let lcg (s : Nat) : Nat := (s * 6364136223846793005 + 1442695040888963407) % 2^64
